@@ -412,6 +412,29 @@ def input_bursts(check, tier):
     s.done()
 
 
+def input_interrupted_pastes(check, tier):
+    """a paste that is interrupted while the request is putting it together (a SIGINT, a thread-safe callback, more bytes arriving right after
+    its 1st / 2nd / 3rd read of the stream): every byte of the burst still comes out exactly once, in order - the rig and reference of C08"""
+    import props.C08 as C8
+    cases = [c for c in C8.wakeup_cases() if any(h[0].startswith("read") for op in c["ops"] if op[0] == "req" for h in op[2])]
+    s = Suite(check, "C03.input_interrupted_pastes", "a 1500-byte and a 40-byte burst through the real Input on a pty with sigint_event, something arriving right "
+              "after the 1st / 2nd / 3rd read of the request (SIGINT, thread-safe callback, one more byte): no byte lost, duplicated or reordered",
+              bound=f"{len(cases)} histories", exhaustive=False)
+    for n, n_req, out in pmap(C8._batch_list, [cases[i::6] for i in range(6)]):
+        s.evaluations += n
+        for kind, case, clause, detail, extra in out:
+            if kind == "harness":
+                check.engine_error(f"C03.input_interrupted_pastes rig: {detail[:300]}")
+                continue
+            if extra.get("read_ended_mid_char") or extra.get("esc_then_nonascii"):
+                continue
+            s.fail("C03.input." + clause.split(".", 1)[-1], dict(case, **{k: v for k, v in extra.items() if isinstance(v, (str, int, bool, type(None)))}), detail,
+                   replay={"kind": "suite", "module": "props.C08", "case": case})
+    s.nontrivial = set(range(s.evaluations))
+    s.samples = cases[:2]
+    s.done()
+
+
 def whole_sequences(check, tier):
     """"a recognised sequence that arrives whole is reported as one keypress under its table name - never broken up": one burst (a single
     write) in which a table sequence / multi-byte character lies across the 1024-byte read boundary at every inner offset; the keys
@@ -592,6 +615,7 @@ def run(check, tier, seed):
     for c in FK.WRITERS:        # how bytes get into the buffer: appended behind what is waiting, one element per byte, in order
         verify(c, tier, check, prefix="C03")
     whole_sequences(check, tier)
+    input_interrupted_pastes(check, tier)
     encoding_aliases(check, tier)
     locale_modes(check, tier)
     check.assume("stream level (deductive): Input._send.find_key consumes a non-empty prefix of the buffered bytes, never loses, duplicates "
